@@ -314,6 +314,23 @@ Section C06.
                  all_finite (chkseq d o t p c0 v1 (S j)) = true).
   Proof. intros H1 H2 H3 H4 H5 H6. exact (replace_judged_after_nonfinite_only_by_zeroing num sub absf ltb isfin zero ev before after d o t s p v1 H1 H2 H3 H4 H5 H6 s' k). Qed.
 
+  (* an exception in the post-hook in EVERY regime (any `errors` value, earlier passes may have been non-finite): the hook runs
+     after the first stopping pass k0 when that pass returned and ended with finite check values (i.e. was judged converged);
+     its exception surfaces as SolutionError chained to it and neither status nor iterations of the period are recorded *)
+  Theorem C06_after_exception_surfaces_general d o t s p v1 k0 v'' c :
+    min_iter o <= max_iter o ->
+    py_pos (List.length (status s)) t = Some p -> feasible d (List.length (status s)) p = true -> offset o = 0 ->
+    is_raise (errors o) && negb (all_finite (get_check d (vals_of s) p)) = false ->
+    before t (errors o) (catch_first o) 0%nat (vals_of s) = (v1, None) ->
+    let c0 := get_check d (vals_of s) p in
+    find_first (stops num sub absf ltb isfin zero ev d o t p c0 v1 (Z.to_nat (max_iter o))) 1 (Z.to_nat (max_iter o)) = Some k0 ->
+    snd (evk o t k0 (st_after o t v1 (k0 - 1))) = None -> all_finite (chkseq d o t p c0 v1 k0) = true ->
+    afterk num after o t k0 (st_after o t v1 k0) = (v'', Some c) ->
+    solve_t_M d o t s =
+    (mkState v'' (status s) (iters s) (log s ++ [EvBefore t] ++ pass_events t 1 k0 ++ [EvAfter t k0]),
+     Raise (SolutionError (Some c))).
+  Proof. intros H1 H2 H3 H4 H5 H6. exact (after_exception_surfaces_general num sub absf ltb isfin zero ev before after d o t s p v1 H1 H2 H3 H4 H5 H6 k0 v'' c). Qed.
+
   (* solve_t consults its oracles only at this call's period argument, `errors` and `catch_first_error` (the warnings filter
      is selected from exactly these two options and nothing else) *)
   Theorem C06_solve_t_hooks_ext (ev' before' after' : hook num) d o t s :
@@ -471,6 +488,7 @@ Print Assumptions C06_lcur_step.
 Print Assumptions C06_solved_only_if_locally_judged.
 Print Assumptions C06_nonfinite_start_never_judged_replace_guarded.
 Print Assumptions C06_replace_judged_after_nonfinite_only_by_zeroing.
+Print Assumptions C06_after_exception_surfaces_general.
 Print Assumptions C06_solve_t_hooks_ext.
 Print Assumptions C06_warnings_dropped_unless_raise_and_catch_first.
 Print Assumptions C06_before_hook_warning_caught.
